@@ -73,7 +73,43 @@ def twins_case(case):
     return dict(key=case, nontrivial=True, failures=fails, sample=dict(lines=lines, rm=victim))
 
 
+GEDIT_BASE = ["S\tA\t8\t*", "S\tB\t8\t*", "S\tC\t8\t*", "E\te1\tA+\tB+\t6\t8$\t0\t2\t*", "E\te6\tB+\tC+\t6\t8$\t0\t2\t*", "G\tg1\tA+\tC-\t10\t*",
+              "O\to1\tA+ B+", "O\to2\to1+ C+", "U\tu1\tA B", "U\tu2\tu1 e1 g1"]
+GEDIT_STEPS = [("u1", "add_item", "C"), ("u1", "add_item", "e1"), ("u1", "add_item", "A"), ("u1", "rm_item", "A"), ("u1", "rm_item", "B"), ("u2", "rm_item", "u1"), ("u2", "add_item", "o1"),
+               ("u2", "rm_item", "g1"), ("o1", "append_item", "C+"), ("o1", "append_item", "e6+"), ("o1", "prepend_item", "e1-"), ("o1", "rm_first_item", None), ("o1", "rm_last_item", None),
+               ("o2", "rm_last_item", None), ("o2", "prepend_item", "A+"), ("o1", "append_item", "B-"), ("o2", "rm_first_item", None)]
+
+
+def gedit_case(case):
+    """documented item editing of connected groups: after every step that is accepted the reference graph is closed and symmetric, and the
+    Gfa equals the one parsed from its own text (an item listed k times has k back-references, a removed item none for that mention)"""
+    _, steps = case
+    fails = []
+    done = []
+    try:
+        g = gfapy.Gfa(GEDIT_BASE, vlevel=1)
+        for grp, method, item in steps:
+            l = g.line(grp)
+            try:
+                getattr(l, method)(*([item] if item is not None else []))
+                done.append((grp, method, item))
+            except gfapy.Error:
+                continue
+            errs = state.wf_errors(g)
+            if errs:
+                fails.append(dict(signature="C02:group-edit:%s:%s" % (method, errs[0][0]), what=errs[0][1], case=dict(lines=GEDIT_BASE, steps=done))); break
+            h = gfapy.Gfa(str(g), vlevel=1)
+            if state.canon_snapshot(g) != state.canon_snapshot(h):
+                fails.append(dict(signature="C02:group-edit:%s:differs-from-reparsed-text" % method, what=harness.short(state.snap_diff(state.snapshot(h), state.snapshot(g)), 400),
+                                  case=dict(lines=GEDIT_BASE, steps=done))); break
+    except Exception as e:
+        fails.append(dict(signature="C02:group-edit:raises-%s" % type(e).__name__, what=harness.short(e), case=dict(lines=GEDIT_BASE, steps=done)))
+    return dict(key=case, nontrivial=bool(done), failures=fails, sample=dict(steps=done))
+
+
 def check_any(case):
+    if case[0] == "gedit":
+        return gedit_case(case)
     return twins_case(case) if case[0] == "twins" else check(case)
 
 
@@ -83,9 +119,13 @@ if __name__ == "__main__":
     for version, lines, victims in TWINS:
         for v in victims:
             cs.append(("twins", version, lines, v))
+    import itertools as _it
+    for k in (1, 2):
+        for steps in _it.permutations(GEDIT_STEPS, k):
+            cs.append(("gedit", tuple(steps)))
     res = harness.run(cs, check_any,
                       rule="start documents = closed subsets of <=%d primary catalogue lines (GFA1+GFA2) in forward and reverse arrival order; histories = all sequences of <=%d legal steps "
                            "(rm by identifier, disconnect of anonymous lines, rename to fresh/integer name, add a further catalogue line), capped per level for large documents (VERIF_SEED); "
-                           "WF checked at the end of every history (every prefix is its own history). distinct = distinct (document, history)" % ((2, 2) if tier == "quick" else (3, 3)),
+                           "WF checked at the end of every history (every prefix is its own history); plus every sequence of <=2 documented group-item edits (add_item, rm_item, append_item, prepend_item, rm_first_item, rm_last_item) on a fixed GFA2 document with nested groups: WF and equality with the re-parsed text after every accepted step. distinct = distinct (document, history)" % ((2, 2) if tier == "quick" else (3, 3)),
                       bound="documents <=%d primary lines, histories <=%d steps" % ((2, 2) if tier == "quick" else (3, 3)), exhaustive=False)
     harness.emit(res)
